@@ -39,10 +39,13 @@ def _identity_model(ev, node):
     return ev.ev(node.args[0]) if len(node.args) == 1 and not node.keywords else NotImplemented
 
 
-def _entry(ctx, solver):
+def _entry(ctx, solver, follow_state=False):
     if solver == "SolveUnc":
         fn = ctx.src.func(O.UNC, "SolveUnc.fsolve")
-        opts = S.Opts(classes=[(O.UNC, "SolveUnc"), (O.BASE, "_BaseODE")], exclude={"self._addconj", "self._delconj", "self._solution_freq"},
+        # (the method that restores the full conjugate set works on solver state, not on d, v, a: an opaque call for the formula rules;
+        #  R9 follows it to read the condition under which `addconj` is reached from fsolve)
+        opts = S.Opts(classes=[(O.UNC, "SolveUnc"), (O.BASE, "_BaseODE")],
+                      exclude={"self._delconj", "self._solution_freq"} | (set() if follow_state else {"self._addconj"}),
                       erase_loop_index=True, models={"_process_incrb": _identity_model}, erase_T=False)
     else:
         fn = ctx.src.func(O.FD, "FreqDirect.fsolve")
@@ -66,7 +69,7 @@ def _families():
 class Run:
     """one evaluated configuration: trace + value typer + classification of the cells by the partition their index selects"""
 
-    def __init__(self, ctx, fam, m_none, extra=None, tag=""):
+    def __init__(self, ctx, fam, m_none, extra=None, tag="", follow_state=False):
         key, label, solver, over, attrs = fam
         self.family = key
         self.solver = solver
@@ -77,9 +80,41 @@ class Run:
         table["self.m is None"] = m_none
         if extra:
             table.update(extra)
-        self.fn, opts = _entry(ctx, solver)
-        self.trace, self.ev = S.run_entry(ctx, self.fn, table, opts, self.label)
-        self.ids = _result_arrays(ctx, self)
+        self.fn, opts = _entry(ctx, solver, follow_state)
+        # A test the configuration does not decide (a test on solver *state* such as "is the full conjugate set present", a flag the rule
+        # knows nothing about) is taken both ways.  The configuration stays usable when what is stored into d, v, a and what is returned is
+        # the same on every combination; otherwise the open tests are reported as analysis errors (`problems`).
+        self.open_tests = []
+        try:
+            found = S.explore(ctx, self.fn, table, opts)
+        except Unsupported as e:
+            tr, ev = S.run_entry(ctx, self.fn, table, opts, self.label)
+            found = [([], tr, ev)]
+            if not tr.undecided:
+                self.open_tests.append((self.fn, f"{self.label}: {e}"))
+        self.paths = [(dec, tr) for dec, tr, _ in found]
+        idss = [_result_arrays(ctx, self.solver, self.fn, tr) for _, tr in self.paths]
+        sigs = [_observable(self.fn, tr, ids) for (_, tr), ids in zip(self.paths, idss)]
+        k = min(range(len(found)), key=lambda i: (len(found[i][1].cells), i))
+        self.trace, self.ev, self.ids = found[k][1], found[k][2], idss[k]
+        if any(sg != sigs[0] for sg in sigs[1:]):
+            seen = set()
+            for i, (dec, tr) in enumerate(self.paths):
+                nodes = {kk: (n, f) for n, f, kk in tr.forked}
+                for v, b in dec:
+                    kk = S.vkey(v)
+                    if kk in seen:
+                        continue
+                    # the test matters when two combinations that differ in it store different things
+                    other = [j for j, (dec2, _) in enumerate(self.paths) if any(S.vkey(v2) == kk and b2 != b for v2, b2 in dec2)]
+                    if any(sigs[j] != sigs[i] for j in other):
+                        seen.add(kk)
+                        n, f = nodes.get(kk, (self.fn, self.fn.name))
+                        text = ast.unparse(n) if kk in nodes else repr(v)
+                        self.open_tests.append((n, f"{self.label}: the test `{text}` in {f} cannot be decided in this configuration "
+                                                   "(what is stored into d, v, a depends on it)"))
+            if not self.open_tests:
+                self.open_tests.append((self.fn, f"{self.label}: the stores into d, v, a differ between the combinations of the tests left open"))
         types = dict(attrs)
         types["force"] = Arr("N", None)
         for x in "dva":
@@ -95,12 +130,18 @@ class Run:
 
     def problems(self):
         """what makes the trace unusable: tests that could not be decided, constructs that are not lowered, the result arrays not found"""
-        out = []
+        out = list(self.open_tests)
         for t, f in self.trace.undecided:
             if isinstance(t, ast.stmt):
                 out.append((t, f"{self.label}: a `{type(t).__name__.lower()}` statement in {f} is not lowered"))
             else:
                 out.append((t, f"{self.label}: the test `{ast.unparse(t)}` in {f} cannot be decided in this configuration"))
+        seen = set()
+        for _, tr in self.paths:
+            for c in tr.cells:
+                if c[0] in tr.opaque and id(c[3]) not in seen:
+                    seen.add(id(c[3]))
+                    out.append((c[3], f"{self.label}: a store through `{c[0]}`, which is bound to `{tr.init.get(c[0])!r}`, cannot be attributed to an array"))
         for x in "dva":
             if self.ids[x] not in self.trace.idents:
                 out.append((self.fn, f"{self.label}: no result array `{x}` reaches the solver"))
@@ -138,43 +179,88 @@ class Run:
         return out      # (partition, ident, index, value, node, clock)
 
 
-def _result_arrays(ctx, run):
+def _classes(solver):
+    return [(O.UNC if solver == "SolveUnc" else O.FD, solver), (O.BASE, "_BaseODE")]
+
+
+def _result_arrays(ctx, solver, fn, trace):
     """identities of the arrays that become the fields d, v, a of the returned solution: read from the call of _solution_freq that ends
     fsolve and from the fields that function fills (the public names sol.d / sol.v / sol.a are the anchor, not the names of locals)"""
     from .sem import split_call, place
     ids = {x: x for x in "dva"}
     try:
-        rets = run.trace.returns.get(run.fn.name) or []
+        rets = trace.returns.get(fn.name) or []
         sc = split_call(rets[-1]) if rets and not is_unknown(rets[-1]) and not isinstance(rets[-1], tuple) else None
         if sc is None or not sc[0].endswith("_solution_freq"):
             return ids
         sf = None
-        for rel, cls in ((O.UNC if run.solver == "SolveUnc" else O.FD, run.solver), (O.BASE, "_BaseODE")):
+        for rel, cls in _classes(solver):
             sf = sf or ctx.src.mod(rel).funcs.get(f"{cls}._solution_freq")
         if sf is None:
             return ids
         params = [a.arg for a in sf.args.args if a.arg != "self"]
         got = place(sc[1], sc[2], params)
-        fields = _solution_fields(ctx, sf, False)
+        fields = _solution_fields(ctx, sf, False, _classes(solver))
         for x in "dva":
             pn = S.sym_name(fields.get(x)) if fields else None
             nm = S.sym_name(got.get(pn)) if pn in got else None
-            if nm is not None and nm in run.trace.idents:
+            if nm is not None and nm in trace.idents:
                 ids[x] = nm
     except Unsupported:
         pass
     return ids
 
 
-def _solution_fields(ctx, sf, pre):
-    """fields of the namespace returned by _solution_freq, as values over its parameters (None when it cannot be read)"""
+def _vk(v):
+    if v is None:
+        return None
+    if is_unknown(v):
+        return ("?", v.why)
+    if isinstance(v, tuple):
+        return tuple(_vk(x) for x in v)
+    try:
+        return S.vkey(v)
+    except Exception:  # noqa
+        return ("?", repr(v))
+
+
+def _observable(fn, trace, ids):
+    """what a caller of fsolve can see of one evaluated path: the stores into the result arrays and into every array that reaches them
+    (ident, index, value in order), what those arrays were created from, and the returned value"""
+    keep = set(ids.values())
+    grow = True
+    while grow:
+        grow = False
+        for c in trace.cells:
+            if c[0] not in keep:
+                continue
+            for val in (c[1], c[2]):
+                if val is None or is_unknown(val) or isinstance(val, tuple):
+                    continue
+                try:
+                    for nm in _symbols(val):
+                        if nm in trace.idents and nm not in keep:
+                            keep.add(nm)
+                            grow = True
+                except Unsupported:
+                    pass
+    sig = [(c[0], _vk(c[1]), _vk(c[2])) for c in trace.cells if c[0] in keep]
+    sig.append(("<init>", tuple(sorted((i, _vk(trace.init.get(i))) for i in keep if i in trace.init))))
+    sig.append(("<return>", tuple(_vk(v) for v in trace.returns.get(fn.name) or [])))
+    sig.append(("<open>", tuple(sorted(ast.dump(t) if not isinstance(t, ast.stmt) else type(t).__name__ for t, _ in trace.undecided))))
+    return sig
+
+
+def _solution_fields(ctx, sf, pre, classes=None):
+    """fields of the namespace returned by _solution_freq, as values over its parameters (None when it cannot be read); helpers of the class
+    it calls (a transformation extracted into a method) are followed"""
     from .sem import split_call
     cache = ctx.__dict__.setdefault("_c02_fields", {})
     k = (id(sf), pre)
     if k in cache:
         return cache[k][0] if cache[k] else None
     cache[k] = None
-    tr, ev = S.run_entry(ctx, sf, {"self.pre_eig": pre}, S.Opts(erase_T=False), "_solution_freq")
+    tr, ev = S.run_entry(ctx, sf, {"self.pre_eig": pre}, S.Opts(classes=classes or [(O.BASE, "_BaseODE")], erase_T=False), "_solution_freq")
     if tr.undecided or not ev.returns:
         return None
     val, node = ev.returns[-1]
@@ -190,12 +276,12 @@ def _solution_fields(ctx, sf, pre):
     return cache[k][0]
 
 
-def _run(ctx, famkey, m_none, extra=None, tag=""):
+def _run(ctx, famkey, m_none, extra=None, tag="", follow_state=False):
     cache = ctx.__dict__.setdefault("_c02_runs", {})
-    k = (famkey, m_none, tuple(sorted((extra or {}).items())))
+    k = (famkey, m_none, tuple(sorted((extra or {}).items())), follow_state)
     if k not in cache:
         fam = next(f for f in _families() if f[0] == famkey)
-        cache[k] = Run(ctx, fam, m_none, extra, tag)
+        cache[k] = Run(ctx, fam, m_none, extra, tag, follow_state)
     return cache[k]
 
 
@@ -601,10 +687,12 @@ def r3_option_gating(ctx):
 # ------------------------------------------------------------------------------------------------ R4
 def r4_partition_typing(ctx):
     n = 0
+    skipped = 0
     for fam in _families():
         for m_none in (True, False):
             run = _run(ctx, fam[0], m_none)
             if not _usable(ctx, run):
+                skipped += 1
                 continue
             T = ValueTyper(run.typer.table, run.trace, run.label)
             for ident, ix, val, node, clk in run.trace.cells:
@@ -613,7 +701,8 @@ def r4_partition_typing(ctx):
                 n += 1
                 _check_once(ctx, ok, f"{run.label}: {kind}: `{text}` index / operand spaces agree", node, detail,
                             key=f"C02-R4|{run.family}|{'m None' if m_none else 'm given'}|{kind}|{text[:90]}", tag=(kind, text))
-    ctx.check(n >= 30, f"partition typing bound to {n} operations on the evaluated frequency-domain paths", O.UNC + ":1", nontrivial=False)
+    if not skipped:      # (a configuration that cannot be evaluated was reported as an analysis error above: no count to compare)
+        ctx.check(n >= 30, f"partition typing bound to {n} operations on the evaluated frequency-domain paths", O.UNC + ":1", nontrivial=False)
 
 
 # ------------------------------------------------------------------------------------------------ R5
@@ -701,11 +790,12 @@ def _psd_paths(ctx, fn):
 
 
 def _psd_ids(trace, fn):
-    """identities of the two returned lists (rms, psd)"""
+    """what solvepsd returns: (value of the rms list, identity of the psd list).  The psd list is accumulated into entry by entry, so it is an
+    array of the trace; the rms list may be one as well (filled in a loop) or be built in one expression (its generic entry is its value)"""
     rets = trace.returns.get(fn.name) or []
-    if not rets or not isinstance(rets[-1], tuple) or len(rets[-1]) != 2 or any(S.sym_name(x) not in trace.idents for x in rets[-1]):
+    if not rets or not isinstance(rets[-1], tuple) or len(rets[-1]) != 2 or S.sym_name(rets[-1][1]) not in trace.idents:
         return None, None
-    return S.sym_name(rets[-1][0]), S.sym_name(rets[-1][1])
+    return rets[-1][0], S.sym_name(rets[-1][1])
 
 
 def _psd_increment(trace, pid, fn):
@@ -720,9 +810,9 @@ def _psd_increment(trace, pid, fn):
 def r5_solvepsd(ctx):
     fn = ctx.src.func(UTIL, "solvepsd")
     paths = _psd_paths(ctx, fn)
-    rms_id, psd_id = _psd_ids(paths[0][1], fn)
+    psd_id = _psd_ids(paths[0][1], fn)[1]
     if psd_id is None:
-        ctx.error("solvepsd: returns (rms, psd), two lists filled per recovery entry", fn)
+        ctx.error("solvepsd: returns (rms, psd), the psd list being filled per recovery entry", fn)
         return
     acc_paths = [(dec, tr) for dec, tr in paths if _psd_ids(tr, fn)[1] and tr.cells_of(_psd_ids(tr, fn)[1])]
     if not acc_paths:
@@ -802,10 +892,19 @@ def r5_solvepsd(ctx):
     fr = tuple(F.sym(f"f{i}") for i in range(NF))
     pp = tuple(F.sym(f"p{i}") for i in range(NF))
     t3 = _psd_run(ctx, fn, (0, 1, 2, 3), env={"freq": fr}, opts=_psd_opts(psd_id, pp))
-    rid = _psd_ids(t3, fn)[0]
-    cs = t3.cells_of(rid) if rid else []
+    rv = _psd_ids(t3, fn)[0]
+    if isinstance(rv, tuple) and len(rv) == 1:
+        rv = rv[0]                         # a list built by appending in the loop over the psd list: its generic entry
+    rid = S.sym_name(rv) if rv is not None and not is_unknown(rv) and not isinstance(rv, tuple) else None
+    if rid is not None and rid in t3.idents:
+        cs = t3.cells_of(rid)             # a list filled entry by entry: (identity, index, value, node, clock)
+    elif rv is not None and not is_unknown(rv) and not isinstance(rv, tuple):
+        # a list built in one expression over the entries of the psd list: its generic entry
+        cs = [(None, None, rv, (t3.ret_nodes.get(fn.name) or [fn])[-1], 0)]
+    else:
+        cs = []
     if not cs or is_unknown(cs[-1][2]) or isinstance(cs[-1][2], tuple):
-        ctx.error("solvepsd: rms formula", cs[-1][3] if cs else fn, repr(cs[-1][2]) if cs else None)
+        ctx.error("solvepsd: rms formula", cs[-1][3] if cs else fn, repr(cs[-1][2]) if cs else repr(rv))
         return
     val = need(cs[-1][2])
     want = F.const(0)
@@ -933,12 +1032,15 @@ def r8_structure_assumption(ctx):
     class).  No hint (the general driver) is always right."""
     mods = [ctx.src.mod(O.FD), ctx.src.mod(O.BASE)]
     n = 0
+    usable = 0
     seen_nodes = set()
     for m_none in (True, False):
         run = _run(ctx, "fd-coup", m_none)
         if not _usable(ctx, run):
             continue
-        calls = [c for c in run.trace.calls if c[0] in S._SOLVES and S._SOLVES[c[0]] == "solve"]
+        usable += 1
+        # (every combination of the tests the configuration leaves open: a hint may be passed on one of them only)
+        calls = [c for _, tr in run.paths for c in tr.calls if c[0] in S._SOLVES and S._SOLVES[c[0]] == "solve"]
         if not calls:
             ctx.error(f"{run.label}: the coupled arm solves H d = F once per frequency", run.fn)
             continue
@@ -988,17 +1090,21 @@ def r8_structure_assumption(ctx):
                               "(m, b and k)", node, None if ok else {"hint": ast.unparse(v), "depends on": sorted(names),
                                                                       "consequence": "an unsymmetric damping matrix makes H unsymmetric whatever m and k are"},
                           key="C02-R8|FreqDirect.fsolve|structure assumption ignores a matrix of H")
-    ctx.check(n >= 1, "FreqDirect.fsolve: the coupled arm solves H d = F once per frequency", ctx.src.func(O.FD, "FreqDirect.fsolve"), n, nontrivial=False)
+    if usable:
+        ctx.check(n >= 1, "FreqDirect.fsolve: the coupled arm solves H d = F once per frequency", ctx.src.func(O.FD, "FreqDirect.fsolve"), n, nontrivial=False)
 
 
 # ------------------------------------------------------------------------------------------------ R9
 def _acts_when(ctx, fn, callee):
     """(comparison value with the polarity folded in) under which `fn` reaches the call of `callee`: the function is evaluated once per
-    combination of its tests; exactly one comparison must separate the paths that act from those that do not"""
+    combination of its tests; exactly one comparison must separate the paths that act from those that do not.
+    Returns the guard (op, left, right, value), None when no single comparison separates them, "always" when every path acts."""
     paths = list(S.enumerate_paths(ctx, fn, {}, S.Opts()))
     acted = [(dec, any(c[0] == callee for c in tr.calls)) for dec, tr in paths]
-    if not any(a for _, a in acted) or all(a for _, a in acted):
-        raise AnchorError(f"{fn.name}: a guarded call of {callee}")
+    if not any(a for _, a in acted):
+        raise AnchorError(f"{fn.name}: no evaluated path reaches the call of {callee}")
+    if all(a for _, a in acted):
+        return "always"
     cands = {}
     for dec, a in acted:
         for v, b in dec:
@@ -1018,42 +1124,138 @@ def _acts_when(ctx, fn, callee):
     return None
 
 
+def _state_guards(ctx, rel, cls, target, depth=0):
+    """[(guard | None, function)] for every place of class `cls` in which the module function `target` is called: the guard is read from the
+    function that contains the call - wherever that is (the dedicated method, or a caller the method was inlined into) - and, when the call is
+    unconditional there, from the callers of that function"""
+    m = ctx.src.mod(rel)
+    out = []
+    for q, f in sorted(m.funcs.items()):
+        if "#" in q or not (q.startswith(cls + ".") or "." not in q):
+            continue
+        local = {target}
+        for st in ast.walk(f):        # a local alias of the function
+            if isinstance(st, ast.Assign) and dotted(st.value) in local:
+                local |= {t.id for t in st.targets if isinstance(t, ast.Name)}
+        from .e1_srcmodel import walk_no_nested
+        if not any(isinstance(x, ast.Call) and dotted(x.func) in local for x in walk_no_nested(f)):
+            continue
+        g = _acts_when(ctx, f, target)
+        if g == "always":
+            if depth < 3 and q.startswith(cls + "."):
+                up = _state_guards(ctx, rel, cls, "self." + f.name, depth + 1)
+                out.extend(up if up else [(None, f)])
+            else:
+                out.append((None, f))
+        else:
+            out.append((g, f))
+    return out
+
+
 def r9_conjugate_set_guards(ctx):
     """The coupled frequency response sums over the FULL set of complex modes; the time-domain recurrence keeps one mode of each conjugate pair.
-    SolveUnc._addconj restores the full set before a frequency solve, _delconj reduces it before a time solve.  The two guards must split the
-    possible states into exactly two classes: `_delconj` acts when the set is full (an equality between two sizes), `_addconj` must act in every
-    other state - the condition under which it acts has to be the negation of that very equality (`!=`, or the strict inequality the size
-    invariant allows) between the same two quantities.  Otherwise a half set of intermediate size (a mix of real roots and complex pairs) is
-    left unexpanded.  The conditions are read off the evaluated paths (which comparison separates the paths that reach the call from those that
-    do not), so a guard clause with an early return is the same as an enclosing `if`."""
-    fa = ctx.src.func(O.UNC, "SolveUnc._addconj")
-    fd = ctx.src.func(O.UNC, "SolveUnc._delconj")
-    ga, gd = _acts_when(ctx, fa, "addconj"), _acts_when(ctx, fd, "delconj")
-    if ga is None or gd is None:
-        ctx.error("_addconj / _delconj: each acts under a single comparison", fa if ga is None else fd)
+    `addconj` restores the full set before a frequency solve (SolveUnc._addconj, or wherever that code lives), `delconj` reduces it before a time
+    solve.  The two guards must split the possible states into exactly two classes: `delconj` is applied when the set is full (an equality
+    between two sizes), `addconj` must be applied in every other state - the condition under which it is reached has to be the negation of that
+    very equality (`!=`, or the strict inequality the size invariant allows) between the same two quantities.  Otherwise a half set of
+    intermediate size (a mix of real roots and complex pairs) is left unexpanded.  The conditions are read off the evaluated paths of the
+    function that contains the call (which comparison separates the paths that reach the call from those that do not), so a guard clause
+    with an early return is the same as an enclosing `if`, and a method inlined into its caller is the same as the method."""
+    gas = _state_guards(ctx, O.UNC, "SolveUnc", "addconj")
+    gds = _state_guards(ctx, O.UNC, "SolveUnc", "delconj")
+    if not gas or not gds:
+        raise AnchorError("SolveUnc: a guarded call of addconj and one of delconj")
+    bad = [f for g, f in gas + gds if g is None]
+    if bad:
+        ctx.error("addconj / delconj: each is applied under a single comparison", bad[0], [f.name for f in bad])
         return
-    ok = gd[0] == "Eq"
-    ctx.check(ok, "_delconj: acts exactly when the stored set is the full set (an equality of two sizes)", fd, gd[0])
-    if not ok:
+    eq = None
+    for gd, fd in gds:
+        ok = gd[0] == "Eq"
+        ctx.check(ok, f"{fd.name}: delconj is applied exactly when the stored set is the full set (an equality of two sizes)", fd, gd[0])
+        if ok and eq is None:
+            eq = gd
+    if eq is None:
         return
-    X, Y = gd[1], gd[2]
-    opa, P, Q = ga[0], ga[1], ga[2]
-    same_pair = (P.equals(X) and Q.equals(Y)) or (P.equals(Y) and Q.equals(X))
-    ok = same_pair and opa in ("NotEq", "Gt", "Lt")
-    ctx.check(ok, "_addconj: acts in every state in which _delconj does not - its guard negates _delconj's equality between the same two sizes", fa,
-              None if ok else {"_addconj acts when": f"{opa}({P!r}, {Q!r})", "_delconj acts when": f"Eq({X!r}, {Y!r})",
-                               "consequence": "a half set whose size is neither of the two tested values (real roots mixed with complex pairs) is not expanded: "
-                                              "fsolve sums over half of the conjugate pairs"},
-              key="C02-R9|SolveUnc._addconj|guard is not the negation of _delconj's")
-    # the coupled frequency path restores the full set before it reads the eigensolution
+    X, Y = eq[1], eq[2]
+    for ga, fa in gas:
+        opa, P, Q = ga[0], ga[1], ga[2]
+        same_pair = (P.equals(X) and Q.equals(Y)) or (P.equals(Y) and Q.equals(X))
+        ok = same_pair and opa in ("NotEq", "Gt", "Lt")
+        ctx.check(ok, f"{fa.name}: addconj is applied in every state in which delconj is not - its guard negates delconj's equality between the same two sizes", fa,
+                  None if ok else {"addconj is applied when": f"{opa}({P!r}, {Q!r})", "delconj is applied when": f"Eq({X!r}, {Y!r})",
+                                   "consequence": "a half set whose size is neither of the two tested values (real roots mixed with complex pairs) is not expanded: "
+                                                  "fsolve sums over half of the conjugate pairs"},
+                  key="C02-R9|SolveUnc._addconj|guard is not the negation of _delconj's")
+    # the coupled frequency path restores the full set before it reads the eigensolution.  fsolve is evaluated in the coupled configuration with
+    # the restoring code followed and every test on solver state taken both ways: (a) on some combination `addconj` is reached, and then before
+    # the modal sum is stored; (b) over ALL combinations one comparison decides whether it is reached - a combination that does not reach it
+    # must imply that comparison false (a guard added around the call may repeat the condition, it may not narrow it) - and that comparison
+    # is again the negation of delconj's equality.
+    names = {"addconj"}
     for m_none in (True, False):
-        run = _run(ctx, "su-coup", m_none)
-        if run.problems():
+        run = _run(ctx, "su-coup", m_none, follow_state=True)
+        if not _usable(ctx, run):
             continue
-        calls = [c for c in run.trace.calls if c[0] == "self._addconj"]
-        dyn = run.cells("d", DYN)
-        ok = bool(calls) and bool(dyn) and calls[0][4] < dyn[-1][5]
-        ctx.check(ok, f"{run.label}: the full conjugate set is restored (_addconj) before the modal sum is stored", calls[0][3] if calls else run.fn)
+        hit, node = False, run.fn
+        for dec, tr in run.paths:
+            calls = [c for c in tr.calls if c[0] in names]
+            dyn = [c for c in tr.cells_of(run.ids["d"]) if run.part(c[1]) in DYN]
+            if calls and dyn and calls[0][4] < dyn[-1][4]:
+                hit, node = True, calls[0][3]
+                break
+        ctx.check(hit, f"{run.label}: the full conjugate set is restored (addconj) before the modal sum is stored", node)
+        if not hit:
+            continue
+        g = _reached_when(run.paths, names)
+        if g is None:
+            ctx.error(f"{run.label}: the states in which fsolve reaches addconj are not those of a single comparison", node,
+                      [[f"{v!r} is {b}" for v, b in dec] + ["-> addconj" if any(c[0] in names for c in tr.calls) else "-> no addconj"] for dec, tr in run.paths])
+            continue
+        opa, P, Q = g[0], g[1], g[2]
+        same_pair = (P.equals(X) and Q.equals(Y)) or (P.equals(Y) and Q.equals(X))
+        ok = same_pair and opa in ("NotEq", "Gt", "Lt")
+        ctx.check(ok, f"{run.label}: fsolve reaches addconj in every state in which delconj is not applied (all the tests on the way taken together)", node,
+                  None if ok else {"addconj is reached when": f"{opa}({P!r}, {Q!r})", "delconj is applied when": f"Eq({X!r}, {Y!r})"},
+                  key="C02-R9|SolveUnc._addconj|guard is not the negation of _delconj's")
+
+
+def _reached_when(paths, names):
+    """the comparison (op with the polarity folded in, left, right, value) that decides over all evaluated combinations whether a call in `names`
+    is reached: every combination that reaches it took the comparison one way, every other combination took it the other way or implies it
+    (by the comparisons it did take: an equality decides the order tests between the same two quantities).  None: no such comparison."""
+    acted = [(dec, any(c[0] in names for c in tr.calls)) for dec, tr in paths]
+    if all(a for _, a in acted):
+        return None
+    cands = {}
+    for dec, a in acted:
+        if a:
+            for v, b in dec:
+                cands.setdefault(S.vkey(v), v)
+    for k, v in cands.items():
+        u = unfn(v)
+        if u is None or not u[0].startswith("cmp:"):
+            continue
+        for pol in (True, False):
+            ok = True
+            for dec, a in acted:
+                got = dict((S.vkey(x), b) for x, b in dec).get(k)
+                if got is None and not a:
+                    cfg = S.Config({})
+                    for x, b in dec:
+                        cfg._put(x, b)
+                    got = cfg.truth(v)
+                if got is not (pol if a else (not pol)):
+                    ok = False
+                    break
+            if ok:
+                op = u[0][4:]
+                if not pol:
+                    op = S._NEG.get(op)
+                    if op is None:
+                        return None
+                return op, u[1][0], u[1][1], v
+    return None
 
 
 RULES = [
